@@ -286,20 +286,16 @@ class World:
         self.clock = 1000.0
         timeshim = types.SimpleNamespace(time=lambda: world.clock, perf_counter=lambda: world.clock,
                                          sleep=lambda s: None)
-        PM.socket = sockshim
-        PM.time = timeshim
-        PM.random = types.SimpleNamespace(shuffle=lambda l: None)
-        PM.select = types.SimpleNamespace(select=self.mgr_select)
-        PC.select = types.SimpleNamespace(select=self.cli_select)
+        from .rebind import rebind          # installs the stand-ins under any import style of manager.py / client.py
+        rebind(PM, {"socket": sockshim, "time": timeshim, "random": types.SimpleNamespace(shuffle=lambda l: None),
+                    "select": types.SimpleNamespace(select=self.mgr_select)})
         self.cli_log: List[bytes] = []          # every buffer a client socket accepted, in order
         self.cli_socks: List["LSock"] = []      # every socket object the client code created
-        PC.socket = types.SimpleNamespace(
+        rebind(PC, {"select": types.SimpleNamespace(select=self.cli_select), "socket": types.SimpleNamespace(
             socket=lambda *a, **k: LSock(world), AF_INET=2, SOCK_STREAM=1, IPPROTO_TCP=6, TCP_NODELAY=1,
-            SOL_SOCKET=1, SO_REUSEADDR=2, MSG_WAITALL=MSG_WAITALL, getprotobyname=lambda n: 6)
-        PC.time = types.SimpleNamespace(perf_counter=self._cli_clock, sleep=lambda s: None, time=self._cli_clock)
-        from .rebind import rebind          # the same stand-ins under any import style of manager.py / client.py
-        rebind(PM, {"socket": PM.socket, "time": PM.time, "random": PM.random, "select": PM.select})
-        rebind(PC, {"select": PC.select, "socket": PC.socket, "time": PC.time})
+            SOL_SOCKET=1, SO_REUSEADDR=2, MSG_WAITALL=MSG_WAITALL, getprotobyname=lambda n: 6),
+            "time": types.SimpleNamespace(perf_counter=self._cli_clock, sleep=lambda s: None, time=self._cli_clock,
+                                          monotonic=self._cli_clock)})
         self._cclock = 0.0
         self.mgr = PM.MessageManager(ip_address="", port=7111, timecode=False, log_level=100, send_msg_timing=False)
         self.mgr.logger_modules = OrderedSet()
